@@ -343,7 +343,12 @@ fn query_layout(res: &mut Reservation, lay: &Layout, addrs: &[u64], lens: &[usiz
         // collections DERIVED from this one (remove a region, put it back): the answers must follow
         // the derived layout, not the one the collection was derived from
         if let Some(m) = &b.mmap {
-            for i in 0..lay.regions.len() {
+            let nr = lay.regions.len();
+            for i in 0..nr {
+                // big collections: first two, middle, last two
+                if nr > 8 && ![0, 1, nr / 2, nr - 2, nr - 1].contains(&i) {
+                    continue;
+                }
                 let (s, l) = lay.regions[i];
                 match m.remove_region(GuestAddress(s as u64), l as u64) {
                     Ok((m2, arc)) => {
@@ -462,10 +467,41 @@ pub fn run(args: &Args) {
         out::sample(jobj! {"kind" => "exhaustive-small-universe", "width" => width as u64, "max_region_size" => maxs as u64, "layouts" => total, "translations" => 3});
     }
 
+    // (1b) collections with MANY regions (lookup strategies may change with the region count):
+    // n regions of 1..3 bytes separated by holes of 0..2 bytes, every address of the universe
+    if !args.flag("noexh") {
+        let mut n = 0u64;
+        for (k, nreg) in [9usize, 15, 16, 17, 18, 31, 32, 33, 63, 64, 65, 100, 129, 257].into_iter().enumerate() {
+            for variant in 0..3u64 {
+                if (k as u64 * 3 + variant) % sh_n != sh_i {
+                    continue;
+                }
+                let mut r = Rng::new(args.seed(), "c02-many", k as u64 * 8 + variant);
+                for shift in [0u128, 0x1_0000_0000 - 7, TOP - 1 - 5 * nreg as u128 - 3] {
+                    let mut regs = vec![];
+                    let mut cur = shift;
+                    for _ in 0..nreg {
+                        let l = match variant { 0 => 1, 1 => 1 + r.below(3) as u128, _ => 2 };
+                        regs.push((cur, l));
+                        cur += l + match variant { 0 => 1, 1 => r.below(3) as u128, _ => 0 };
+                    }
+                    let lo = shift.saturating_sub(2) as u64;
+                    let addrs: Vec<u64> = (0..(cur - shift + 5) as u64).map(|d| lo.wrapping_add(d)).chain([0, u64::MAX]).collect();
+                    let lens: Vec<usize> = vec![0, 1, 2, 3, 4, 5, 7, 2 * nreg, 5 * nreg, usize::MAX];
+                    let lay = Layout::new(regs);
+                    out::set_case(1_000_000 + n);
+                    query_layout(&mut res, &lay, &addrs, &lens, &mut judged, false);
+                    n += 1;
+                }
+            }
+        }
+        out::count("many_region_layouts", n as i128);
+    }
+
     // (2) random large layouts
     for case in args.cases(300) {
         let mut r = Rng::new(args.seed(), "c02", case);
-        let nreg = 1 + r.usize_below(8);
+        let nreg = if r.chance(1, 5) { 9 + r.usize_below(72) } else { 1 + r.usize_below(8) };
         let mut regs: Vec<(u128, u128)> = vec![];
         let mut cur: u128 = match r.below(4) {
             0 => 0,
